@@ -1,15 +1,12 @@
-(* model_run <domain>: reads `<case> => <impl result>` lines on stdin. *)
+(* model_run <domain>: reads `<case> => <impl result>` lines on stdin; Run is the domain's
+   driver (ocaml/run_<domain>.ml copied to run.ml at build time). *)
 let () =
-  let domain = if Array.length Sys.argv > 1 then Sys.argv.(1) else "" in
-  let handle = (match domain with
-    | "codec" -> Run_codec.handle
-    | _ -> prerr_endline ("unknown domain " ^ domain); exit 2) in
   (try
      while true do
        let line = input_line stdin in
        if line <> "" && line.[0] <> '#' then begin
          let (case, out) = Zu.split_arrow line in
-         try handle case out
+         try Run.handle case out
          with e -> Printf.printf "DRIVER-ERROR %s | %s\n" (Printexc.to_string e) line
        end
      done
